@@ -40,8 +40,8 @@ func spaces(res *vk.Result) []*opseq.Space {
 		c := c
 		u := universe()
 		depth := 3
-		if !vk.Thorough() && c.Storage+"+"+c.Index != "memory+memory" && c.Name() != "blobpacked+sqlite" {
-			depth = 2
+		if !vk.Thorough() && c.Name() != "memory+memory" {
+			depth = 2 // quick: depth 3 on one configuration, depth 2 on the other five
 		}
 		out = append(out, &opseq.Space{
 			Name: c.Name(), Ops: Ops(u), Depth: depth, SigPrefix: "C18|" + c.Name(), WorkBase: i * 5,
